@@ -135,8 +135,11 @@ def header_model(s):
 
 def header_alphabet():
     out = []
-    for name, sep, value in itertools.product(["X-A", " X-A ", "", "X A", "X\tA"], [":", " : ", ""], ["v", "", "a:b", " v "]):
+    for name, sep, value in itertools.product(["X-A", " X-A ", "", "X A", "X\tA"], [":", " : ", ""], ["v", "", "a:b", " v ", "en, fr;q=0.8", "edge-1,via:edge-2", "a=b; c=\"d\""]):
         s = name + sep + value
+        m = header_model(s)
+        if m is not None and not re.match(r"^[!#$%&'*+\-.^_`|~0-9A-Za-z]+$", m[0]):
+            continue   # a name that is not an HTTP token cannot be carried by any client: outside the property's domain
         if s not in out:
             out.append(s)
     return out
@@ -376,7 +379,7 @@ def run(tier):
     cov = {
         "evaluations": len(cases), "distinct_nontrivial": len(distinct),
         "rule": "request model: {is-one-of} x {specify-by-url} x {authorization} x {no headers, two headers}; every header string of "
-                "the alphabet 5 names x 3 separators x 4 values (and 4 pairs) with an existing output file; behaviours: 26 scripted "
+                "the alphabet 5 names x 3 separators x 7 values (incl. commas, semicolons, quotes, further colons) (and 4 pairs) with an existing output file; behaviours: 26 scripted "
                 "replies x {stdout, new file, existing file}; connection closed after k bytes for every k of a 200 reply with "
                 "content-length (%s). distinct = (flags, headers, output placement, server behaviour)" %
                 ("output = existing file" if tier == "quick" else "all three output placements"),
